@@ -23,4 +23,20 @@ def SameIdentity (i j : Image) : Prop := PyEq (.list (identity7 i)) (.list (iden
 def Uniq (cs : Cells) : Prop :=
   ∀ i ∈ cs.all, ∀ j ∈ cs.all, SameIdentity i j → PyEq i.checksums j.checksums
 
+/-- every filing of the manifest: (variant, arch, object id, attributes), in iteration order -/
+def entries (cs : Cells) : List (Str × Str × Nat × Image) :=
+  cs.flatMap fun va => va.2.flatMap fun ac => ac.2.map fun e => (va.1, ac.1, e.1, e.2)
+
+/-- … without the object ids: the multiset of (variant, arch, 15-attribute record) the manifest holds -/
+def triples (cs : Cells) : List (Str × Str × Image) := (entries cs).map fun e => (e.1, e.2.1, e.2.2.2)
+
+/-- the four integer attributes hold ints, not bools (`bool <: int` lets a bool pass the validator) -/
+def ProperInts (i : Image) : Prop :=
+  (∃ n, i.mtime = .int n) ∧ (∃ n, i.size = .int n) ∧ (∃ n, i.disc_number = .int n) ∧ (∃ n, i.disc_count = .int n)
+
+/-- what the writer/reader pair does to the compose section, exactly: `final` survives only together with a label
+(documented), an empty label becomes None -/
+def composeNorm (c : Compose) : Compose :=
+  if c.label.truthy then { c with final := .bool c.final.truthy } else { c with label := .none, final := .bool false }
+
 end PM.Spec
